@@ -1636,7 +1636,7 @@ void ScriptEmitter::EmitSwitch(sval_t val, sourceLocation_t sourceLoc)
     ++switchDepth;
 
     ScriptCountManager countManager;
-    ScriptEmitter emitter(countManager, stateScript, info, 5);
+    ScriptEmitter emitter(countManager, stateScript, info);
     emitter.canBreak = true;
     emitter.switchDepth = 1;
     emitter.EmitRoot(val);
